@@ -41,6 +41,9 @@ def cond_of(mn: str):
     return None
 
 
+_LONG = {"n": 0}
+
+
 def check_case(res, case):
     """case as in states (bytes, addr, regs, mem). Runs 4 flag variants. Returns violations."""
     from .. import pyexec
@@ -78,6 +81,24 @@ def check_case(res, case):
     opc = case.get("opc")
     sigbase = {"op": f"{opc:02X}" if opc is not None else "--", "pre": case.get("preb") is not None}
     types = [t for t, _ in branches]
+    # ---- one long-lived emulator: the same bytes are first executed at ANOTHER address (other page), then here. Where
+    #      execution goes must not depend on that (lifted IL / decoded instructions remembered per encoding, a low-power flag
+    #      left by an earlier HALT/OFF of the sweep, ...): same PC as on the fresh emulator
+    if res is not None and (branches or _LONG["n"] % 4 == 0):
+        from .c07 import HistoryCore
+        core = _LONG.get("core")
+        if core is None:
+            core = _LONG["core"] = HistoryCore()
+        cs = dict(case, regs=dict(case["regs"], FC=1, FZ=0))
+        other = dict(cs, addr=(addr ^ 0x20000) & 0xFFFFF)
+        core.run(other)
+        again = core.run(cs)
+        res.monitor("long_lived_emulator_same_target")
+        if "exc" in again or (again["PC"] & 0xFFFFF) != outcomes[(1, 0)]:
+            v(dict(sigbase, clause="target_depends_on_history"),
+              {"fresh_pc": outcomes[(1, 0)], "long_lived_pc": again.get("PC"), "exc": again.get("exc"),
+               "same_bytes_executed_before_at": other["addr"]})
+    _LONG["n"] += 1
     if not branches:
         if res:
             res.monitor("fallthrough_oracle")
